@@ -70,10 +70,19 @@ def main():
                     # the way a GUI sends a game: the same position command growing move by move, ucinewgame now and then
                     cut = sorted(set(cut + list(range(0, min(len(mv), 24) + 1))))
                 sp = chk.rng.random() < 0.5
+                promo_steps = [k for k in range(1, len(st)) if st[k].get("alts")]
+                cut = sorted(set(cut + promo_steps))
                 for k in cut:
                     cases.append({"root": root, "moves": mv[:k], "want_fen": st[k]["fen"], "want_replies": sorted(st[k]["replies"]),
                                   "use_startpos": sp, "go": chk.rng.random() < 0.1 and len(st[k]["replies"]) > 0,
                                   "newgame": chk.rng.random() < 0.2})
+                    # a promotion taken back and replaced by another piece: same squares, another letter, then the game goes on
+                    for a in (st[k].get("alts") or []):
+                        cases.append({"root": root, "moves": mv[:k - 1] + [a["uci"]], "want_fen": a["fen"],
+                                      "want_replies": sorted(a["replies"]), "use_startpos": sp, "go": False, "newgame": False})
+                        cases.append({"root": root, "moves": mv[:k], "want_fen": st[k]["fen"], "want_replies": sorted(st[k]["replies"]),
+                                      "use_startpos": sp, "go": False, "newgame": False})
+                        specials += 1
     # targeted family: every legal move of any piece onto an en-passant target square (the genuine capture and the
     # king / knight / bishop / rook / queen moves that merely land there)
     goe = vlib.tlc("Gen_OntoEp", timeout=1200, xmx="2g")
